@@ -540,6 +540,8 @@ class Prog:
         self.ops_used = []
         self.tainted = set()  # names whose buffer is shared with a gradient cell (ownership not modelled by value)
         self.alias = {}       # name -> name of the node it is another handle of (sum(0) returns a clone)
+        self.fetched = set()  # nodes whose gradient has been fetched once (a second handle fetched from the same
+        #                       cell would be a clone of the first: node sharing the by-value model does not have)
         self.topology = []   # (op, arg ids) for distinctness
         self.maxfan = {}
 
@@ -566,6 +568,16 @@ class Prog:
             self.tr[n] = True
         return n
 
+    def node(self, v):
+        return self.alias.get(v, v)
+
+    def may_fetch(self, v):
+        n = self.node(v)
+        if n in self.fetched:
+            return False
+        self.fetched.add(n)
+        return True
+
     def names(self):
         return sorted(self.shape)
 
@@ -585,6 +597,7 @@ class Prog:
         return self.new_leaf(t)
 
     def note(self, op, res, args):
+        self.alias.pop(res, None)          # a (re)bound result is a new node
         self.ops_used.append(op)
         self.topology.append((op, tuple(args)))
         for a in args:
@@ -855,6 +868,7 @@ def fam_history(rng, n, tier, mode="exact", metamorphic=False):
                 w = p.fresh("k")
                 p.emit("clone %s %s" % (w, v))
                 p.shape[w] = list(p.shape[v]); p.tr[w] = p.tr[v]
+                p.alias[w] = p.node(v)
                 if v in p.tainted:
                     p.tainted.add(w)
                 if v in p.leaf:
@@ -881,6 +895,8 @@ def fam_history(rng, n, tier, mode="exact", metamorphic=False):
                     p.op_binary(op=rng.choice(["add", "mul"]), a=v, b=b, res=v)
             else:
                 v = p.pick()
+                if not p.may_fetch(v):
+                    continue
                 w = p.fresh("t")
                 p.emit("takegrad %s %s" % (w, v))
                 # may panic (no gradient): the case then ends on both sides
@@ -1474,6 +1490,8 @@ def fam_alias(rng, n, tier, mode="exact"):
                     p.backward(v)
             elif x < 0.85:
                 v = p.pick()
+                if not p.may_fetch(v):
+                    continue
                 w = p.fresh("t")
                 p.emit("grad %s" % v)
                 # fetch only where a gradient certainly exists: tracked leaves after a pass is not
@@ -1486,6 +1504,7 @@ def fam_alias(rng, n, tier, mode="exact"):
                 w = p.fresh("k")
                 p.emit("clone %s %s" % (w, v))
                 p.shape[w] = list(p.shape[v]); p.tr[w] = p.tr[v]; p.tainted.add(w)
+                p.alias[w] = p.node(v)
                 if v in p.inter:
                     p.inter.add(w)
             else:
